@@ -422,6 +422,9 @@ class DnsRecordRrsig(ParsableBase):  # pylint: disable=too-many-instance-attribu
         parser.parse_numeric('original_ttl', 4)
         parser.parse_timestamp('signature_expiration', item_size=4)
         parser.parse_timestamp('signature_inception', item_size=4)
+        for timestamp_name in ('signature_expiration', 'signature_inception'):
+            if parser[timestamp_name] is None:  # all-ones is the "forever" sentinel, which an RRSIG cannot carry
+                raise InvalidValue(0xffffffff, cls, timestamp_name)
         parser.parse_numeric('key_tag', 2)
         parser.parse_parsable('signers_name', DnsNameUncompressed)
         parser.parse_raw('signature', parser.unparsed_length)
